@@ -12,7 +12,8 @@ c->s : notebooks: every base x single-side edit script X from spec/NotebookEdits
 """
 import itertools
 
-from . import common, mergefam
+from . import common, mergefam, mergedrv
+from . import concretize
 from .common import Check
 from .corpus import Corpus
 from .mergefam import plan_item
@@ -46,6 +47,47 @@ def sym_tasks(triples):
         plan = [plan_item("cli", s, sym=True) for s in SYM_STRATS]
         tasks.append((name + "-sym", b, l, rr, plan, {"with_diffs": True}))
     return tasks
+
+
+INSERTING = ("Insert", "InsertRun", "Duplicate", "Replace", "Move")
+
+
+def _screen(t):
+    """both role orders under the default strategy: does the verdict or the conflict-free result differ?"""
+    from nbdime.merging.notebooks import merge_notebooks
+    mergedrv.quiet_logging()
+    try:
+        b, l, rr = (concretize.concrete(t[k]) for k in ("base", "local", "remote"))
+        if not all(concretize.is_valid(x) for x in (b, l, rr)):
+            return None
+        args = mergedrv.strategy_args("inline", None, None, True)
+        m1, d1 = merge_notebooks(b, l, rr, args)
+        m2, d2 = merge_notebooks(b, rr, l, args)
+    except Exception:
+        return True
+    c1, c2 = any(d.conflict for d in d1), any(d.conflict for d in d2)
+    return c1 != c2 or (not c1 and m1 != m2)
+
+
+def symmetry_sweep(chk, cap):
+    """EVERY TLC-enumerated triple in which both sides edit the same position is merged in both role orders; the
+    ones where a difference shows are forwarded to the full validation (where the specification decides, including
+    the same-position-insertion carve-out).  The sweep only selects what TLC looks at; it decides nothing."""
+    import multiprocessing
+    from .corpus import enumerate_edits, _bucket
+    tr = [t for t in enumerate_edits(1, 1) if "same" in _bucket(t)]
+    with multiprocessing.get_context("fork").Pool(common.NCPU) as pool:
+        flags = pool.map(_screen, tr, chunksize=64)
+    cand = [t for t, f in zip(tr, flags) if f]
+    plain = [t for t in cand if not any(h["edit"]["a"] in INSERTING for h in t["hist"])]
+    rest = [t for t in cand if t not in plain][:max(0, cap - len(plain))]
+    chk.notes["symmetry_sweep"] = {"same_position_triples_merged_both_ways": len(tr), "candidates": len(cand),
+                                   "candidates_without_insertions": len(plain), "forwarded": len(plain[:cap]) + len(rest)}
+    out = []
+    for k, t in enumerate(plain[:cap] + rest):
+        b, l, rr = (concretize.concrete(t[x]) for x in ("base", "local", "remote"))
+        out.append(("sweep%d" % k, b, l, rr, {"source": "sweep", "script": t["hist"]}))
+    return out
 
 
 def generic_tasks(docs_by_universe, limit_atoms, r, maxtriples):
@@ -210,7 +252,7 @@ def run():
     r.shuffle(ndocs)
     if chk.quick:
         pairs = corp.pairs(n_enum=220, n_random=60, salt="c05")
-        triples = corp.triples(n_enum=360, n_random=100, salt="c05s")
+        triples = corp.triples(n_enum=360, n_random=100, salt="c05s") + symmetry_sweep(chk, 150)
         models = run_models("quick", chk, universes=[("lists", 2), ("objects", 2), ("strings", 1)])
         gtasks = generic_tasks({u: m[0] for u, m in models.items()}, True, r, 2500)
         gtasks += generic_strategy_law_tasks({u: m[0] for u, m in models.items()}, r, 60)
@@ -218,7 +260,7 @@ def run():
         ntasks = law_tasks(pairs, r, 2) + sym_tasks(triples)
     else:
         pairs = corp.pairs(n_enum=2500, n_random=1500, salt="c05")
-        triples = corp.triples(n_enum=6000, n_random=3000, salt="c05s")
+        triples = corp.triples(n_enum=6000, n_random=3000, salt="c05s") + symmetry_sweep(chk, 1500)
         models = run_models("thorough", chk, universes=[("lists", 2), ("objects", 2), ("strings", 2), ("nested", 1)])
         gtasks = generic_tasks({u: m[0] for u, m in models.items()}, False, r, 70000)
         gtasks += generic_strategy_law_tasks({u: m[0] for u, m in models.items()}, r, 1500)
